@@ -131,6 +131,8 @@ def jobs(tier):
 
 BOUNDS = {'quick': 'same sources/world as C01 quick (0-3 lines over the small menu, LF/CRLF, with/without final newline), two runs each',
           'thorough': 'all 3-line sources over the small menu, 2-line sources over the full menu, two runs each'}
+from . import project as _project
+BOUNDS = {k: v + _project.bounds_note('C13', k) for k, v in BOUNDS.items()}
 ASSUMPTIONS = ['D1-D12 of DESIGN.md 4.3', 'D8: commands are deterministic (the second run sees the same results)']
 COVERS_REQUIRED = ['ends_with_text', 'temp', 'error']
 
